@@ -42,6 +42,7 @@ def run_schedule(cfg, prefix):
     conn = ep.conn
     try:
         pre = [{"t": "attach"}] if cfg.get("init") == "nce" else \
+              [{"t": "attach"}, RF("LOGON", 0), RS("APP", "11=a"), RF("APP", 2)] if cfg.get("init") == "awaiting" else \
               [{"t": "attach"}, RF("LOGON", 0), RS("APP", "11=a"), RS("HB"), RS("APP", "11=b")]
         for rev in pre:
             s.apply(rev)
@@ -122,6 +123,8 @@ def run_schedule(cfg, prefix):
                     data = s.peer.frame("TR", nin, trid="T9")
                 elif o == "LOGON":
                     data = s.peer.frame("LOGON", nin)
+                elif o == "GAPCLOSE":      # the gap fill that closes the gap we are awaiting (state goes back to ACTIVE)
+                    data = s.peer.frame("SEQRESET", nin, pd=True, gf=True, newseq=max(conn._max_seq_num_resend, nin) + 1)
                 elif o == "GAP":
                     data = s.peer.frame("APP", nin + 2, pay="g")
                 else:
